@@ -282,7 +282,10 @@ def run(ctx):
                 "curves (sizes from harness/scale.py straddling 2^8..2^16 / 10^4 / 10^5; miss-count, noisy, staircase, convex, valley and "
                 "dyadic MRC shapes; x up to 4*10^5, y up to 10^7; a few wide and hundreds of tight knee clusters) in {float64, int64} x "
                 "{C, same objects again, Fortran order, strided view} plus an in-place update of the caller's arrays, judged by the "
-                "same Purity.tla histories")
+                "same Purity.tla histories; neighbour curves: at 8193 .. 10^5 points the hull recipes (and every vectorised recipe on some "
+                "worlds) are called on a curve and then on a curve of the same length and dtype that differs in ONE sample (a dip / a "
+                "spike at a prime index near the middle) in every representation and as an in-place update, judged against the first call "
+                "(Purity.tla) and against the result of a fresh process that never saw the first curve")
     ctx.assumptions += [
         "results: index-valued parts identical, real-valued parts equal within rel 1e-12; an int-typed and a float-typed array "
         "with equal values are the same result",
@@ -304,7 +307,13 @@ def run(ctx):
     ctx.extra["not_driven"] = dict(recipes.NOT_DRIVEN, **{g: "NO RECIPE (coverage gap)" for g in gaps})
     nworlds = 3 if ctx.quick else 12
     sitems = _scale_items(ctx)
-    allh = par.pmap(_dyn_item, sitems + [(name, ctx.seed * 1000 + wk, wk) for name in sorted(R) for wk in range(nworlds)], chunksize=1)
+    titems, ttasks = _twin_items(ctx)
+    sitems += titems
+    R_s = _scale_recipes()
+    sitems.sort(key=lambda it: -(it[2] * (40 if R_s[it[1]][5] else 1) * (0.3 if it[0] == "scale" and it[5] == 2 else 1.0)))
+    # the reference tasks of the neighbour family come first: each is the first thing its (freshly forked) worker does
+    allh = par.pmap(_dyn_item, ttasks + sitems + [(name, ctx.seed * 1000 + wk, wk) for name in sorted(R) for wk in range(nworlds)], chunksize=1)
+    allh = allh[len(ttasks):]
     shist, hist = allh[:len(sitems)], allh[len(sitems):]
     ctx.extra["worlds_per_recipe"] = nworlds
     cases = []
@@ -351,6 +360,14 @@ def replay(ctx, obj):
         return
     if c["kind"] == "hist":
         _history_sweep(ctx, only=c["fn"])
+        return
+    if c["kind"] == "scale" and c.get("twin"):
+        path = os.path.join(ctx.scratch, "twinref_replay.pkl")
+        if os.path.exists(path):
+            os.remove(path)
+        _twin_refs([(c["n"], c["shape"], c["wseed"], int(c["twin"]), [c["fn"]], path)])
+        h = _twin_history(("twin", c["fn"], c["n"], c["shape"], c["wseed"], int(c["twin"]), path, int(c.get("lite", 0))))
+        _scale_judge(ctx, [h], ctx.trace("Purity", _split_cases(h)), quiet=True)
         return
     if c["kind"] == "scale":
         h = _scale_history(("scale", c["fn"], c["n"], c["shape"], c["wseed"], int(c.get("lite", 0))))
@@ -933,7 +950,9 @@ def _scale_history(item):
 
 
 def _dyn_item(item):
-    return _scale_history(item) if item[0] == "scale" else _history(item)
+    if item[0] == "twinref":
+        return _twin_ref_task(item[1:])
+    return _scale_history(item) if item[0] == "scale" else _twin_history(item) if item[0] == "twin" else _history(item)
 
 
 def _scale_items(ctx):
@@ -980,13 +999,15 @@ def _scale_judge(ctx, shist, rej, quiet=False):
     skipped = {}
     for h in shist:
         case = {"kind": "scale", "fn": h["fn"], "n": h["n"], "shape": h["shape"], "wseed": h["wseed"], "lite": h["lite"]}
+        if h.get("twin"):
+            case["twin"] = h["twin"]
         short = h["fn"].split("[")[0]
         if h["skipped"]:
             skipped[h["id"]] = h["skipped"]
             continue
         calls += len(h["events"])
         if not quiet:
-            ctx.count(("scale", h["id"]), any(ch.isdigit() for e in h["events"] for ch in str(e["shown"])))
+            ctx.count(("scale", h["id"]), any(ch.isdigit() for e in h["events"] for ch in str(e["shown"])) and h.get("twin_changed", True))
         e0 = h["events"][0]
         if e0["outcome"] != "returned":
             if _is_link_error(e0["outcome"], e0["shown"]):
@@ -999,6 +1020,8 @@ def _scale_judge(ctx, shist, rej, quiet=False):
         if h.get("reuse"):
             ctx.violation("stale-after-in-place-update(%s)" % short, case, dict(h["reuse"], n=h["n"], shape=h["shape"]),
                           match="stale-after-in-place-update:%s" % short)
+        if h.get("history"):
+            ctx.violation("history-dependent(%s)" % short, case, dict(h["history"], n=h["n"], shape=h["shape"]), match="history-dependent:%s" % short)
         vs = rej.get(h["id"] + "@scale")
         if vs:
             clause = vs[0][0]
@@ -1012,6 +1035,261 @@ def _scale_judge(ctx, shist, rej, quiet=False):
                               "knee_clusters_removed_as_near_ties": {"%s/%d" % (h["shape"], h["n"]): h.get("dropped_clusters", 0) for h in shist
                                                                      if h.get("dropped_clusters")},
                               "tolerance": "rel 1e-12 + 4 n eps"}
+        tw = [h for h in shist if h.get("twin") and not h["skipped"]]
+        ctx.extra["scale_neighbour"] = {"histories": len(tw), "recipes": len(set(h["fn"] for h in tw)), "sizes": sorted(set(h["n"] for h in tw)),
+                                        "with_fresh_process_reference": sum(1 for h in tw if h.get("twin_ref")),
+                                        "result_differs_from_the_first_curve": sum(1 for h in tw if h["twin_changed"]),
+                                        "hull_recipe_histories": sum(1 for h in tw if h["fn"].startswith(TWIN_ALWAYS)),
+                                        "changed_indexes": sorted(set(h["twin_spec"]["index"] for h in tw))}
+        hb = [h for h in tw if h["fn"].startswith(TWIN_ALWAYS)]
+        if hb:
+            ctx.sample({"binding": "T", "scale_neighbour_history": max(hb, key=lambda h: h["n"])})
         big = [h for h in shist if not h["skipped"] and h["events"]]
         if big:
             ctx.sample({"binding": "T", "scale_history": max(big, key=lambda h: (h["n"], h["fn"].startswith("postprocessing.filter_clusters")))})
+
+
+# =====================================================================================================================
+# ---- scale family, second part: NEIGHBOUR curves.  A long curve A is processed, then a curve A' of the same length and
+# dtype that differs from A in ONE sample (a dip below / a spike above every other ordinate, at a PRIME index near the middle
+# of the curve: not a multiple of any stride a sampled fingerprint could use, outside every knee cluster so that no ranking
+# decision moves towards a tie) - as a fresh object in every representation AND as an in-place update of the objects the
+# first call saw.  References: the first call of the history (Purity.tla: again -> nondeterministic, other layouts / int64 ->
+# layout-dependent) and the result a FRESH process (forked from the parent, one per world, which never saw A) obtained for
+# A': a fresh-object call that differs from it is history-dependent, an in-place update that differs from it (or from the
+# fresh-object call) is stale-after-in-place-update.  The per-sample python loops of the hull recipes are replayed at every
+# size here (they cost well under a second per call); the other python-loop recipes (kneedle, menger, slope_ranking, mip,
+# lmethod) and the recipe whose vote must be pinned (kneedle.knee) are left out.
+TWIN_ALWAYS = ("convex_hull.graham_scan_lower", "convex_hull.graham_scan_upper", "postprocessing.filter_clusters[hull")
+TWIN_KINDS = {1: "dip", 2: "spike"}
+
+
+def _is_prime(q):
+    if q < 2 or q % 2 == 0:
+        return q == 2
+    d = 3
+    while d * d <= q:
+        if q % d == 0:
+            return False
+        d += 2
+    return True
+
+
+def _twin_spec(W, k):
+    """(index, 'dip' | 'spike', depth level) of the one changed sample: a deterministic function of the world and k"""
+    import zlib
+    rng = random.Random(zlib.crc32(("twin/%d/%s/%d/%d" % (W.n, W.shape, W.wseed, k)).encode()))
+    n = W.n
+    spans = [(g[0] - 3, g[-1] + 3) for g in list(W.groups_wide) + list(W.groups_many)]
+    q = (n // 2 + rng.randrange(-(n // 8), n // 8 + 1)) | 1
+    lvl = rng.randrange(0, 3)
+    p = None
+    while q < n - 8:
+        if _is_prime(q) and not any(a <= q <= b for a, b in spans):
+            p = q
+            break
+        q += 2
+    if p is None:
+        p = next(q for q in range(n // 2 | 1, n, 2) if _is_prime(q))
+    return p, TWIN_KINDS[k], lvl
+
+
+def _twin_args(args0, W, spec):
+    """the arguments of the recipe with ONE ordinate changed (x stays strictly increasing; integral columns stay integral)"""
+    p, kind, lvl = spec
+    out = []
+    for a in args0:
+        if isinstance(a, np.ndarray) and a.dtype.kind == "f" and a.shape[0] == W.n and a is not W.x and \
+                (a.ndim == 1 or (a.ndim == 2 and a.shape[1] == 2)):
+            b = a.copy()
+            col = b[:, 1] if b.ndim == 2 else b
+            lo, hi = float(col.min()), float(col.max())
+            span = hi - lo
+            if bool(np.all(col == np.floor(col))):
+                d = (1.0, max(2.0, float(np.rint(span / 128.0))), float(np.rint(span)) + 1.0)[lvl]
+            else:
+                d = max(span, 2.0 ** -20) * (2.0 ** -7, 0.25, 1.0)[lvl]
+            col[p] = lo - d if kind == "dip" else hi + d
+            out.append(b)
+        else:
+            out.append(a)
+    return out
+
+
+_TWIN_NAMES = []
+
+
+def _twin_names():
+    """the recipes of the neighbour family: the hull recipes and every vectorised recipe that takes an ordinate array of the
+    length of the curve"""
+    if not _TWIN_NAMES:
+        R = _scale_recipes()
+        W = _ScaleWorld(1031, "convex", 0)
+        spec = _twin_spec(W, 1)
+        for name in sorted(R):
+            fn, mk, maxn, abf, need, heavy = R[name]
+            if need or (heavy and not name.startswith(TWIN_ALWAYS)):
+                continue
+            a0 = mk(W)
+            if any(b is not a for a, b in zip(a0, _twin_args(a0, W, spec))):
+                _TWIN_NAMES.append(name)
+    return list(_TWIN_NAMES)
+
+
+def _twin_budget(n):
+    return monitor.quad(n, 8), 120 + n // 500
+
+
+def _twin_ref_task(task):
+    """runs as the FIRST work of a process forked from the parent (the pool hands the items out in order, one by one, and
+    these tasks head the list; a replay forks a process for it): the library has never seen the first curve here"""
+    import pickle
+    n, shape, wseed, k, names, path = task
+    R = _scale_recipes()
+    W = _scale_world(n, shape, wseed)
+    spec = _twin_spec(W, k)
+    budget, wall = _twin_budget(n)
+    out = {}
+    for name in names:
+        fn, mk = R[name][0], R[name][1]
+        args1 = _twin_args(mk(W), W, spec)
+        o, v, _ = monitor.call(fn, tuple(_variant(a, "C") for a in args1), {}, budget=budget, wall=wall)
+        out[name] = (o, v if o == "returned" else str(v)[:200])
+    with open(path + ".tmp", "wb") as f:
+        pickle.dump(out, f, protocol=4)
+    os.rename(path + ".tmp", path)
+    return None
+
+
+def _twin_refs(tasks):
+    import multiprocessing as mp
+    if not tasks:
+        return
+    with mp.get_context("fork").Pool(min(len(tasks), 12), maxtasksperchild=1) as pool:
+        pool.map(_twin_ref_task, tasks, chunksize=1)
+
+
+_TWIN_REF = {}
+
+
+def _twin_ref_load(path, wait=600.0):
+    import pickle
+    import time
+    if path not in _TWIN_REF:
+        _TWIN_REF.clear()
+        t0 = time.time()
+        while not os.path.exists(path) and time.time() - t0 < wait:      # its task started before this one (it is earlier in the list)
+            time.sleep(0.05)
+        try:
+            with open(path, "rb") as f:
+                _TWIN_REF[path] = pickle.load(f)
+        except Exception:
+            _TWIN_REF[path] = {}
+    return _TWIN_REF[path]
+
+
+def _twin_history(item):
+    """one recipe on a long curve A and then on its one-sample neighbour A' in every representation and in place"""
+    _, name, n, shape, wseed, k, refpath, lite = item
+    fn, mk, maxn, abf, need, heavy = _scale_recipes()[name]
+    W = _scale_world(n, shape, wseed)
+    spec = _twin_spec(W, k)
+    cid = "scale:twin%d:%s@%s/%d/%d" % (k, name, shape, n, wseed)
+    base = {"id": cid, "fn": name, "n": n, "shape": shape, "wseed": wseed, "lite": lite, "twin": k, "events": [], "reuse": None,
+            "history": None, "skipped": None, "dropped_clusters": 0, "twin_changed": False,
+            "twin_spec": {"index": spec[0], "change": spec[1], "depth_level": spec[2]}}
+    args0 = mk(W)
+    args1 = _twin_args(args0, W, spec)
+    tol = _scale_tol(n)
+    ab = 3.0 * float(abf(W)) if abf else 0.0
+    budget, wall = _twin_budget(n)
+    what = "one sample (index %d, %s) of the curve the previous call saw" % (spec[0], spec[1])
+
+    def same(r1, r2):
+        return r1[0] == r2[0] and (r1[0] != "returned" or _scale_same(r1[1], r2[1], tol, ab))
+
+    def show(r):
+        return _shown(r[1]) if r[0] == "returned" else "%s %s" % (r[0], str(r[1])[:120])
+
+    objs_a = [_variant(a, "C") for a in args0]
+    res_a = monitor.call(fn, tuple(objs_a), {}, budget=budget, wall=wall)[:2]
+    kinds = [kd for kd in (SCALE_LITE if lite >= 2 else SCALE_VARIANTS) if not kd.startswith("int") or _has_int_form(args1)]
+    results = []
+    base_objs = None
+    for kind in kinds:
+        args = base_objs if kind == "again" else [_scale_variant(a, kind) for a in args1]
+        if kind == "C":
+            base_objs = args
+        before = [_digest(a) for a in args]
+        _churn(len(results))
+        out, val, _ = monitor.call(fn, tuple(args), {}, budget=budget, wall=wall)
+        after = [_digest(a) for a in args]
+        mutated = ["arg%d" % j for j in range(len(args)) if before[j] != after[j]]
+        cls = None
+        for j, r in enumerate(results):
+            if same(r, (out, val)):
+                cls = j
+                break
+        if cls is None:
+            cls = len(results)
+        results.append((out, val))
+        base["events"].append({"variant": kind, "world": "scale", "mutated": mutated, "resclass": "scale-%d" % cls, "outcome": out,
+                               "shown": _shown(val) if out == "returned" else str(val)[:200]})
+    res_c = results[0]
+    ref = _twin_ref_load(refpath).get(name) if refpath else None
+    base["twin_ref"] = ref is not None
+    base["twin_changed"] = not same(res_a, ref if ref is not None else res_c)
+    if ref is not None and not same(ref, res_c):
+        base["history"] = {"after_the_neighbour_curve": show(res_c), "fresh_process": show(ref), "neighbour": what}
+    # in-place update of the objects the first call saw
+    try:
+        for o, b in zip(objs_a, args1):
+            if isinstance(o, np.ndarray) and isinstance(b, np.ndarray) and o.shape == b.shape:
+                o[...] = b
+        res_i = monitor.call(fn, tuple(objs_a), {}, budget=budget, wall=wall)[:2]
+        if not same(res_i, res_c):
+            base["reuse"] = {"reused_objects": show(res_i), "fresh_objects": show(res_c), "update": what}
+        elif ref is not None and not same(res_i, ref):
+            base["reuse"] = {"reused_objects": show(res_i), "fresh_process": show(ref), "update": what}
+    except Exception:
+        pass
+    return base
+
+
+def _twin_items(ctx):
+    """(size, shape, changed sample) worlds of the neighbour family and the items replayed on each; the references of every
+    world are computed first, each world in a process of its own"""
+    import zlib
+    rng = random.Random(zlib.crc32(("twin-sizes/%d" % ctx.seed).encode()))
+    names = _twin_names()
+    hulls = [nm for nm in names if nm.startswith(TWIN_ALWAYS)]
+    shapes = list(SCALE_SHAPES)
+    rng.shuffle(shapes)
+    worlds = []          # (n, shape, k, every recipe?)
+    if ctx.quick:
+        sizes = [8192 + rng.randrange(1, 4000), rng.choice((16384, 32768)) + rng.randrange(1, 3000), rng.choice((65536, 100000)) + rng.randrange(1, 2000)]
+        worlds = [(sizes[0], shapes[0], 1, True), (sizes[0], shapes[1], 2, False), (sizes[1], shapes[2], 1, False), (sizes[1], shapes[3], 2, False),
+                  (sizes[2], "misscount", 1, False)]
+    else:
+        sizes = [8192 + rng.randrange(1, 4000), 10000 + rng.randrange(2300, 6000), 16384 + rng.randrange(1, 3000), 32768 + rng.randrange(1, 3000),
+                 65536 + rng.randrange(1, 3000), 100000 + rng.randrange(1, 2000)]
+        for j, n in enumerate(sizes):
+            for i in range(3):
+                worlds.append((n, shapes[(3 * j + i) % len(shapes)], 1 + (i + j) % 2, i == 0))
+            if "misscount" not in [w[1] for w in worlds[-3:]]:
+                worlds.append((n, "misscount", 1 + j % 2, False))
+    items, tasks = [], []
+    for n, shape, k, full in worlds:
+        # the upper hull does not move for a dip, the lower hull does not move for a spike: both changes for the hull recipes
+        for kk in (1, 2):
+            use = [nm for nm in (names if (full and kk == k) else hulls)
+                   if n <= _scale_recipes()[nm][2] and (kk == k or ("upper" in nm) == (kk == 2))]
+            if not use:
+                continue
+            path = os.path.join(ctx.scratch, "twinref_%d_%s_%d_%d.pkl" % (n, shape, ctx.seed, kk))
+            if os.path.exists(path):
+                os.remove(path)
+            tasks.append(("twinref", n, shape, ctx.seed, kk, use, path))
+            items += [("twin", nm, n, shape, ctx.seed, kk, path, 2 if (ctx.quick and n > 20000) else 0) for nm in use]
+    ctx.extra["scale_neighbour_worlds"] = ["%s/%d/%s%s" % (sh, n, TWIN_KINDS[k], "/every recipe" if full else "/hull recipes") for n, sh, k, full in worlds]
+    return items, tasks
